@@ -139,7 +139,7 @@ def _vals(d):
     return list(d or [])
 
 
-def canon_key(regs, drops, stat=None):
+def canon_key(regs, drops, stat=None, extra=None):
     """stat: spec side [tl: key -> inits, lz: static -> instances]; impl side {"tl": [[init, drop]..], "lz": [[init, drop]..]}"""
     k = {"regs": [list(r) for r in regs], "drops": _vals(drops)}
     if stat:
@@ -147,4 +147,6 @@ def canon_key(regs, drops, stat=None):
         if tl or lz:
             # the spec says every initialised value is dropped by the end of the iteration: [n] stands for [n, n]
             k["stat"] = [[x, x] if not isinstance(x, list) else x for x in tl] + [[x, x] if not isinstance(x, list) else x for x in lz]
+    if extra:
+        k.update(extra)
     return json.dumps(k, sort_keys=True)
